@@ -353,7 +353,7 @@ class Session:
         if prop == "initial_state":
             self.x0 = [float(v) for v in value]
         elif prop == "initial_time":
-            self.t0 = float(value)
+            self.t0 = float(value[0] if isinstance(value, (list, tuple, NumArr)) else value)
         elif prop == "initial_values":
             self.x0, self.t0 = [float(v) for v in value[0]], float(value[1])
         elif prop == "parameters":
@@ -372,6 +372,8 @@ def check_histories(repo, res, rule="R-FRESH"):
         "initial_state": lambda: ("initial_state", NumArr([4.0, 8.0])),
         "initial_state(list)": lambda: ("initial_state", [4.0, 8.0]),
         "initial_time": lambda: ("initial_time", 0.25),
+        "initial_time(one-element list)": lambda: ("initial_time", [0.75]),
+        "initial_state(tuple)": lambda: ("initial_state", (5.0, 7.0)),
         "initial_values": lambda: ("initial_values", (NumArr([6.0, 3.0]), 0.125)),
         "parameters": lambda: ("parameters", {"p": 2.0}),
     }
